@@ -116,23 +116,26 @@ class Facts:
                 out.append(('rawloop', c['id']))
         return out
 
-    def cond_atoms(self, cond, pol, scope, fw):
+    def cond_atoms(self, cond, pol, scope, fw, depth=0):
         tm = self.tm(fw)
         if pol:
             out = []
             for x in conjuncts(cond):
-                out += self.single_cond(x, True, scope, fw)
+                out += self.single_cond(x, True, scope, fw, depth)
             return out
         if cond['k'] == 'Binary' and cond['op'] == '||':
             # !(a || b) == !a && !b
             from .metafacts import disjuncts
             out = []
             for x in disjuncts(cond):
-                out += self.single_cond(x, False, scope, fw)
+                out += self.single_cond(x, False, scope, fw, depth)
             return out
-        return self.single_cond(cond, False, scope, fw)
+        if cond['k'] == 'Binary' and cond['op'] == '&&':
+            # !(a && b): not a conjunction of atoms; keep as one opaque-but-structured atom
+            return [('nand', tuple(sorted(str(a) for c in conjuncts(cond) for a in self.single_cond(c, True, scope, fw, depth))))]
+        return self.single_cond(cond, False, scope, fw, depth)
 
-    def single_cond(self, x, pol, scope, fw):
+    def single_cond(self, x, pol, scope, fw, depth=0):
         tm = self.tm(fw)
         while x['k'] == 'Unary' and x['op'] == '!':
             x = x['expr']
@@ -155,6 +158,19 @@ class Facts:
             l, r = x['l_'], x['r_']
             if l['k'] == 'MethodCall' and l['method'] == 'len' and r['k'] == 'Lit' and r['lit']['k'] == 'Int':
                 return [('len', tm.term(l['recv'], scope), int(r['lit']['digits']), pol if x['op'] == '==' else not pol)]
+        if x['k'] == 'Path' and len(x['path']['segs']) == 1:
+            d = scope.lookup(x['path']['s'])
+            if d is not None and d.kind == 'let' and d.init is not None and not d.assigns and not d.ppath and depth < 6:
+                alts = [d] + list(d.twins)
+                if len(alts) == 2:
+                    # `#[cfg(feature = "Y")] let c = <expr>; #[cfg(not(feature = "Y"))] let c = false;`
+                    pos = [a for a in alts if a.cfg and a.cfg[0][0] == 'feat']
+                    neg = [a for a in alts if a.cfg and a.cfg[0][0] == 'not']
+                    if len(pos) == 1 and len(neg) == 1 and neg[0].init is not None and neg[0].init['k'] == 'Lit' and neg[0].init['lit'].get('v') is False:
+                        return self.cond_atoms(pos[0].init, pol, pos[0].scope, fw, depth + 1)
+                elif len(alts) == 1 and d.init['k'] in ('Binary', 'Unary', 'MethodCall', 'Macro', 'Path', 'Field'):
+                    if d.init['k'] != 'MethodCall' or d.init['method'] in ('contains', 'is_some', 'is_none', 'is_empty', 'contains_key'):
+                        return self.cond_atoms(d.init, pol, d.scope, fw, depth + 1)
         if x['k'] in ('Path', 'Field'):
             return [('truth', tm.term(x, scope), pol)]
         if x['k'] == 'Macro' and 'matches' in x['mac']:
